@@ -38,7 +38,7 @@ type Mutation { bump: Int  obj: Obj }
 
 /// The tape-decoded adversarial grammar (also used by the libFuzzer target).
 pub fn gen_adversarial(t: &mut Tape, world_tape: &[u8], stats: &mut GenStats) -> Adv {
-    match t.weighted(&[30, 8, 8, 8, 8, 14, 10, 14, 12, 10]) {
+    match t.weighted(&[30, 8, 8, 8, 8, 14, 10, 14, 12, 10, 8]) {
         0 => {
             // fragment-spread cycle of length 1..6
             let len = t.range(1, 6);
@@ -313,6 +313,25 @@ pub fn gen_adversarial(t: &mut Tape, world_tape: &[u8], stats: &mut GenStats) ->
                 None => Adv { kind: "json_malformed_type_ref", schema: "{}".into(), ext: "json", query: "query Q { a }".into(), cycle: None, nontrivial: true },
             }
         }
+        10 => {
+            // several inline fragments (or an inline fragment and a spread) for the same variant at
+            // every level of a deep selection: the input is linear in the depth, the work must be too
+            let depth = t.range(10, 28);
+            let on = *t.pick(&["Obj", "Other"]);
+            let (field, parent_sel) = if t.chance(50) { ("face", "face") } else { ("uni", "face") };
+            let _ = parent_sel;
+            let k = t.range(2, 3);
+            let mut inner = String::from("__typename ... on Obj { id }");
+            for _ in 0..depth {
+                let mut level = format!("__typename ... on {} {{ face {{ {} }} }}", on, inner);
+                for j in 1..k {
+                    level.push_str(&format!(" ... on {} {{ {} }}", on, if j == 1 { "id" } else { "name" }));
+                }
+                inner = level;
+            }
+            let q = format!("query Q {{ {} {{ {} }} }}\n", field, inner);
+            Adv { kind: "repeated_variant_fragments_nested", schema: BASE_SCHEMA.into(), ext: "graphql", query: q, cycle: None, nontrivial: depth >= 16 }
+        }
         _ => {
             // valid cases mixed in
             let mut wt = Tape::new(world_tape);
@@ -394,7 +413,7 @@ fn fuzz_campaign(report: &mut Report) {
 }
 
 pub fn run(report: &mut Report, replay: Option<&Value>) {
-    report.rule = "adversarial grammar (tape-decoded): fragment-spread cycles of length 1-6 on objects / interfaces / unions, with and without `__typename`, direct or through fields; input-type cycles incl. non-null ones and @oneOf; selection nesting and type-expression nesting up to 64; interfaces without implementors, self-referential unions, dangling names; documents broken by token deletion / duplication, truncated schemas; introspection JSON with members removed or nulled; valid cases mixed in. Every input runs in an isolated worker process (8 MiB stack, like a proc macro). Oracle: the call ends with Ok, Err or a panic carrying a message inside the watchdog; a signal, abort or repeatable silence is a violation. Non-trivial: the input contains a cycle, nesting >= 16, or is syntactically broken; distinct by hash(schema, document).".into();
+    report.rule = "adversarial grammar (tape-decoded): fragment-spread cycles of length 1-6 on objects / interfaces / unions, with and without `__typename`, direct or through fields; input-type cycles incl. non-null ones and @oneOf; selection nesting and type-expression nesting up to 64; 2-3 inline fragments for the same variant at every level of a selection 10-28 deep (input linear in the depth); interfaces without implementors, self-referential unions, dangling names; documents broken by token deletion / duplication, truncated schemas; introspection JSON with members removed or nulled; valid cases mixed in. Every input runs in an isolated worker process (8 MiB stack, like a proc macro). Oracle: the call ends with Ok, Err or a panic carrying a message inside the watchdog; a signal, abort or repeatable silence is a violation. Non-trivial: the input contains a cycle, nesting >= 16, or is syntactically broken; distinct by hash(schema, document).".into();
     report.assumptions = vec!["a hang is only called after it repeats alone with a 60 s limit".into(), "graphql-parser's own recursion limit (50 brackets) is third-party behaviour: its parse errors are an accepted `Err`".into()];
     if let Some(v) = replay {
         replay_one(report, v);
